@@ -54,7 +54,7 @@ Lemma qv_zero (a : Qnn) : a = q0 <-> qv a = 0%Qc.
 Proof. split. now intros ->. intros H. now apply Qnn_eq. Qed.
 
 Definition QnnSF : SF.
-Proof. refine (@mkSF QnnSR qdiv qeqz _ _ _ _ _).
+Proof. refine (@mkSF QnnSR qdiv qeqz _ _ _ _ _ _).
   - (* zero-sum-free *) intros a b H. apply (f_equal qv) in H. simpl in H.
     pose proof (proj1 (nn_le _) (qnn a)) as Ha. pose proof (proj1 (nn_le _) (qnn b)) as Hb.
     destruct (Qc_zero_sum_free _ _ Ha Hb H) as [Ea Eb].
@@ -65,6 +65,8 @@ Proof. refine (@mkSF QnnSR qdiv qeqz _ _ _ _ _).
     + intros H. apply qv_zero. now apply Qc_eq_bool_correct.
     + intros ->. reflexivity.
   - (* div_mul *) intros a b Hb. apply Qnn_eq. simpl.
+    assert (qv b <> 0%Qc) by (intro E; apply Hb; now apply qv_zero). now field.
+  - (* mul_div *) intros a b Hb. apply Qnn_eq. simpl.
     assert (qv b <> 0%Qc) by (intro E; apply Hb; now apply qv_zero). now field.
   - intro H. apply (f_equal qv) in H. discriminate H. Defined.
 
